@@ -809,6 +809,23 @@ let () =
            | _ -> ());
           let m = match visible raw with None -> "." | Some e -> "v:" ^ hex_of_bytes e.val0 in
           if m <> res then drift "model-get" (Printf.sprintf "key=%s S=%s impl=%s model=%s" k s res m))
+     | "O" :: "orange" :: lo :: hi :: items :: s :: pulls :: results ->
+       (* scan through an overlay memtable (C03: the overlay shadows the tree key by key): the
+          Spec is the ordered map of the snapshot's view plus the overlay's writes on top *)
+       bump "scans"; bump "overlay_scans";
+       let s' = n_of_string s in
+       let lo' = parse_bound lo and hi' = parse_bound hi in
+       let ov = if items = "-" then [] else List.map (fun it ->
+           match String.split_on_char ':' it with
+           | [ k; sq; v ] -> { ukey = bytes_of_hex k; seq0 = n_of_string sq; ty = (if v = "!" then Tomb else Value); val0 = (if v = "!" then [] else bytes_of_hex v) }
+           | _ -> failwith ("bad overlay item " ^ it)) (String.split_on_char ',' items) in
+       let base = List.filter (fun (e : entry) -> N.ltb e.seq0 s') (h_at s') in
+       let want = deque_run (spec_range (ov @ base) lo' hi' sEQ_MAX) pulls in
+       let want_s = List.map (function None -> "." | Some e -> hex_of_bytes e.ukey ^ "=" ^ hex_of_bytes e.val0) want in
+       if List.exists (fun x -> x <> ".") want_s then bump "scans_nonempty";
+       let is_snap = Hashtbl.fold (fun _ v acc -> acc || N.eqb v s') snaps false in
+       if want_s <> results then
+         fail ~snap:is_snap "oracle-range" (Printf.sprintf "overlay scan %s %s overlay=%s S=%s impl=[%s] spec=[%s]" lo hi items s (String.concat " " results) (String.concat " " want_s))
      | "O" :: (("range" | "prefix") as kind) :: rest ->
        bump "scans";
        let (sel, s, pulls, results) =
